@@ -131,7 +131,8 @@ class Report:
             if cnt < r.floor and not r.broken:
                 broken.append('%s matched %d instance(s), floor is %d (a rule must not pass '
                               'vacuously)' % (r.rid, cnt, r.floor))
-            verdict = 'BROKEN' if (r.broken or cnt < r.floor) else ('VIOLATED' if bad else 'ok')
+            unlisted = [i for i in bad if i.key() not in listed]
+            verdict = 'BROKEN' if (r.broken or cnt < r.floor) else ('VIOLATED' if unlisted else ('known' if bad else 'ok'))
             lines.append('  %-8s %-9s instances=%-3d floor=%-3d %s' % (r.rid, verdict, cnt, r.floor, r.desc))
             table.append({'rule': r.rid, 'desc': r.desc, 'instances': cnt, 'floor': r.floor,
                           'verdict': verdict})
